@@ -114,6 +114,7 @@ type cdef struct {
 	Mod    string
 	Plan   int
 	Key    int
+	Rev    uint64 // revision of the tendermint client's chain id / latest height (0 = default revision 1)
 }
 
 // upReq is one MsgUpgradeClient request shape.
@@ -207,6 +208,15 @@ func New25(cfg C25Config) *S25 {
 			add(cdef{Name: fmt.Sprintf("substitute-%s-h%d", strings.ToLower(st), h), Status: st, H: h, Plan: -1})
 		}
 	}
+	// other revisions (chain id virt-2 / virt-3; everything else matches): heights are ordered revision first, so
+	// a revision-1 substitute with a numerically larger revision height is NOT above a revision-2 subject, while a
+	// revision-2 / revision-3 substitute is above every revision-1 subject whatever its revision height
+	if !cfg.Core {
+		add(cdef{Name: "subject-frozen-rev2-h4", Status: FrozenS, H: c25H - 1, Plan: -1, Rev: 2})
+		add(cdef{Name: "subject-expired-rev2-h4", Status: Expired, H: c25H - 1, Plan: -1, Rev: 2})
+		add(cdef{Name: "substitute-active-rev2-h3", Status: Active, H: c25H - 2, Plan: -1, Rev: 2})
+		add(cdef{Name: "substitute-active-rev3-h1", Status: Active, H: 1, Plan: -1, Rev: 3})
+	}
 	// substitutes differing in exactly one parameter (Active, greater height)
 	mods := []string{"trustlevel", "unbonding", "drift", "specs", "path", "trusting", "chainid", "allowflags"}
 	if cfg.Core {
@@ -250,6 +260,9 @@ func (d cdef) params() CParams {
 	p := defaultParams()
 	if d.Status == Expired {
 		p.Trusting = c25Short
+	}
+	if d.Rev > 1 {
+		p.ChainID = fmt.Sprintf("virt-%d", d.Rev)
 	}
 	switch d.Mod {
 	case "trustlevel":
@@ -398,7 +411,7 @@ func (s *S25) Init(wk *ksim.Worker) *ksim.World {
 			}
 		} else {
 			m.P = d.params()
-			m.Latest = clienttypes.NewHeight(1, d.H)
+			m.Latest = clienttypes.NewHeight(max(d.Rev, 1), d.H)
 			m.ConsTime = c25ConsTime
 			cons := ibctm.NewConsensusState(time.Unix(0, c25ConsTime).UTC(), commitmenttypes.NewMerkleRoot(s.rootOf(d.Plan)), s.vals.Set.Hash())
 			m.ID = CreateTM(w, m.P.clientState(m.Latest), cons)
